@@ -422,6 +422,10 @@ type msgReader struct {
 	payloadLength int64
 	maskKey       uint32
 
+	// taken is set, under readMu, once Close has taken over reading from the connection:
+	// what was left of the message being read has been discarded, so it cannot be read further.
+	taken bool
+
 	// util.ReaderFunc(mr.Read) to avoid continuous allocations.
 	readFunc util.ReaderFunc
 }
@@ -450,6 +454,12 @@ func (mr *msgReader) Read(p []byte) (n int, err error) {
 		return 0, fmt.Errorf("failed to read: %w", err)
 	}
 	defer mr.c.readMu.unlock()
+
+	if mr.taken {
+		// Close gave up readMu before the connection was closed (another goroutine was already
+		// closing it, or the wait for the peer's close frame ended).
+		return 0, fmt.Errorf("failed to read: %w", net.ErrClosed)
+	}
 
 	if mr.flate && mr.flateReader == nil {
 		// The compressed message was already read to its end and its flate reader went back
